@@ -3228,3 +3228,87 @@ func ruleRecordLayoutAgreement(c *Ctx) {
 	}
 	c.Floor("trie modes computed from the ledger options in state sync", n, 2)
 }
+
+// ---------------------------------------------------------------------------
+// trusted-header-checked (C20, C06): with a TrustedHeader configured, the header stored at the trusted height is the
+// trusted one. addHeaders first cuts the headers it already knows off the front of the batch and then compares
+// headers[0] with the configured hash. The comparison has to be made on the batch that is stored: it gates the store
+// call, and the batch variable is not reassigned between the comparison and the store - a check made before the
+// trimming looks at a header that is thrown away and lets a forged header at the trusted height through whenever
+// the batch starts below it.
+func ruleTrustedHeaderChecked(c *Ctx) {
+	fd := c.P.Func("pkg/core", "Blockchain", "addHeaders")
+	if fd == nil {
+		c.Lost("trusted-header-checked.anchor", "Blockchain.addHeaders not found")
+		return
+	}
+	f := c.P.NewFuncCFG(fd)
+	stores := f.CallSites("pkg/core.(*HeaderHashes).addHeaders")
+	if len(stores) == 0 {
+		c.Lost("trusted-header-checked.store", "addHeaders no longer hands the headers to HeaderHashes.addHeaders")
+		return
+	}
+	res := f.CheckGate(f.Entry(), blocksOf(stores), Guard{ID: "trusted-hash", Doc: "the header at the trusted height has the configured hash", Alts: [][]string{{"pkg/config#TrustedHeader", "pkg/core/block.(*Header).Hash"}}, WholeOpen: true}, nil)
+	if !res.OK {
+		// the Hash method may be promoted/embedded: accept any mention of the trusted header together with a hash comparison
+		res = f.CheckGate(f.Entry(), blocksOf(stores), Guard{ID: "trusted-hash", Doc: "the header at the trusted height has the configured hash", Alts: [][]string{{"pkg/config#TrustedHeader"}}, WholeOpen: true}, nil)
+	}
+	if !res.OK {
+		c.Fail("trusted-header-checked.gate", c.P.Pos(stores[0].call.Pos()), "Blockchain.addHeaders stores headers without comparing the header at the trusted height with the configured hash: "+res.Msg, res.Path...)
+		return
+	}
+	c.OK("trusted-header-checked.gate", c.P.Pos(stores[0].call.Pos()), res.Msg)
+	// no reassignment of the batch between the check and the store
+	var batch types.Object
+	sig := fd.Obj.Type().(*types.Signature)
+	if sig.Variadic() {
+		batch = sig.Params().At(sig.Params().Len() - 1)
+	}
+	if batch == nil {
+		c.Lost("trusted-header-checked.batch", "addHeaders has no variadic batch parameter")
+		return
+	}
+	var checks []*cfg.Block
+	for _, b := range f.G.Blocks {
+		if b.Live {
+			if cond := f.Cond(b); cond != nil && f.Mentions(cond, b)["pkg/config#TrustedHeader"] {
+				checks = append(checks, b)
+			}
+		}
+	}
+	reassign := map[*cfg.Block]bool{}
+	for _, b := range f.G.Blocks {
+		if !b.Live {
+			continue
+		}
+		for _, nd := range b.Nodes {
+			if as, ok := nd.(*ast.AssignStmt); ok {
+				for _, l := range as.Lhs {
+					if id, ok := l.(*ast.Ident); ok && f.Info.ObjectOf(id) == batch {
+						reassign[b] = true
+					}
+				}
+			}
+		}
+	}
+	bad := false
+	for _, chk := range checks {
+		reach := f.reach(chk.Succs, nil, nil)
+		for b := range reassign {
+			if _, ok := reach[b]; ok {
+				// and the store is reachable from that reassignment
+				r2 := f.reach([]*cfg.Block{b}, nil, nil)
+				for _, st := range stores {
+					if _, ok := r2[st.blk]; ok {
+						bad = true
+					}
+				}
+			}
+		}
+	}
+	if bad {
+		c.Fail("trusted-header-checked.same-batch", c.P.Pos(stores[0].call.Pos()), "Blockchain.addHeaders compares the trusted header's hash and reassigns the batch afterwards (the known headers are cut off its front): the header compared is not the first one stored, and a forged header at the trusted height passes whenever the batch starts below it")
+	} else {
+		c.OK("trusted-header-checked.same-batch", c.P.Pos(stores[0].call.Pos()), "the batch is not reassigned between the trusted-header comparison and the store")
+	}
+}
